@@ -428,7 +428,7 @@ def _abort_summary(err):
     return ' | '.join((key or lines)[:4])[:700]
 
 
-def run_lookups(b, ns, probes, sections, n_present_names):
+def run_lookups(b, ns, probes, sections, n_present_names, history=None):
     """One driver process.  sections: [(label, repository number, dependency typelib, main typelib,
     cap on present by-name probes or None)] -> {label: [(cmd, key, result)]} (the two loads first)."""
     cmds = []
@@ -436,7 +436,14 @@ def run_lookups(b, ns, probes, sections, n_present_names):
         names, gts, dms = probes
         if name_cap is not None and n_present_names > name_cap:
             names = _strided(names[:n_present_names], name_cap) + names[n_present_names:]
-        cmds += [(label, r, 'load', dep_path), (label, r, 'load', main_path)]
+        hist = history.get(label, {}) if history else {}
+        cmds += [(label, r, 'load', dep_path)]
+        if hist.get('premiss'):
+            # the repository is asked for the GTypes before the namespace that defines them is loaded (after its
+            # dependency): it remembers them as unknown, and must forget that when the namespace arrives, eagerly
+            # or lazily
+            cmds += [(label + ':pre', r, 'premiss', k) for k in gts if k not in hist.get('exclude', ())]
+        cmds += [(label, r, 'load', main_path + (' 1' if hist.get('lazy') else ''))]
         cmds += [(label, r, 'name', k) for k in names] + [(label, r, 'gtype', k) for k in gts] + [(label, r, 'domain', k) for k in dms]
     script = ''.join(('load %d %s\n' % (r, a)) if c == 'load' else ('%s %d %s %s\n' % (c, r, ns, _hex(a))) for l, r, c, a in cmds)
     rc, out, err = b.run([b.driver('lookup')], input=script, timeout=900)
@@ -572,7 +579,21 @@ def check_case(case, ctx):
         sections = [('index', 0, dep_tl, main_tl, None), ('linear', 1, dep_tl, noidx_tl, LINEAR_NAME_CAP)]
     else:
         sections = [('linear', 0, dep_tl, main_tl, LINEAR_NAME_CAP)]
-    by_label = run_lookups(b, ns, probes, sections, n)
+    ps = int(case.get('pseed', 0))
+    history = {sections[0][0]: {'premiss': ps % 3 != 1, 'lazy': ps % 2 == 1}}
+    if len(sections) > 1:
+        history[sections[1][0]] = {'premiss': ps % 3 == 1, 'lazy': (ps // 2) % 2 == 1}
+    for lab, hh in history.items():
+        # GType names the dependency defines too (decoys) would be found there and legitimately remembered
+        hh['exclude'] = set(model['dep_gtypes'])
+        ctx.label('history:%s%s' % ('premiss+' if hh['premiss'] else '', 'lazy' if hh['lazy'] else 'eager'))
+    by_label = run_lookups(b, ns, probes, sections, n, history)
+    for lab in list(by_label):
+        if lab.endswith(':pre'):
+            for c, key, r in by_label[lab]:
+                inf = _info(r)
+                if inf not in (None, 'skipped') and inf[2] != dep_ns:
+                    raise Violation('find-by-gtype:found-before-load', 'GType %r reported as %r before its namespace was loaded' % (key[:120], inf))
     runs = [(sec[0], by_label[sec[0]]) for sec in sections]
     boxed_excluded = None
 
